@@ -5,13 +5,36 @@
 // zz_verif_hooks.go).
 package models
 
-import "sort"
+import (
+	"fmt"
+	"reflect"
+	"sort"
+)
 
 // VerifIDs is the state of the session-id generator: counter and reusable ids (ascending).
 func (s *SessionStore) VerifIDs() (cur uint32, reusable []uint32) {
 	g := verifMust(s, SequentialIDGenerator{}).Addr().Interface().(*SequentialIDGenerator)
-	for id := range verifMust(g, map[uint32]struct{}{}).Interface().(map[uint32]struct{}) {
-		reusable = append(reusable, id)
+	// the pool of released ids: whatever collection of uint32 the generator keeps (a map keyed by id, or a slice)
+	gv := reflect.ValueOf(g).Elem()
+	n := 0
+	for i := 0; i < gv.NumField(); i++ {
+		f := gv.Field(i)
+		u32 := reflect.TypeOf(uint32(0))
+		switch {
+		case f.Kind() == reflect.Map && f.Type().Key() == u32:
+			n++
+			for _, k := range f.MapKeys() {
+				reusable = append(reusable, uint32(k.Uint()))
+			}
+		case f.Kind() == reflect.Slice && f.Type().Elem() == u32:
+			n++
+			for j := 0; j < f.Len(); j++ {
+				reusable = append(reusable, uint32(f.Index(j).Uint()))
+			}
+		}
+	}
+	if n != 1 {
+		panic(fmt.Sprintf("verif hook: %d collections of uint32 in %T (expected exactly one)", n, g))
 	}
 	sort.Slice(reusable, func(i, j int) bool { return reusable[i] < reusable[j] })
 	return verifMust(g, uint32(0)).Interface().(uint32), reusable
